@@ -934,6 +934,7 @@ func runC10(c *Ctx) {
 	checkLeaf("(core/state.StateDB).Commit#leaf-references", withClosures(cm), []string{"Reference"})
 	syncFn := w.Fn("core/state", "", "NewStateSync")
 	checkLeaf("core/state.NewStateSync#leaf-schedules", withClosures(syncFn), []string{"AddSubTrie", "AddRawEntry"})
+	c10RoundE(c, c.W)
 }
 
 func methodOnField(fn *ssa.Function, f *types.Var, method string) bool {
@@ -1217,4 +1218,69 @@ func sliceElem(t types.Type) types.Type {
 		return sl.Elem()
 	}
 	return t
+}
+
+// c10RoundE: K10 (= C08.V10 under C10) and K11 (tries are persistent: writes go to fresh copies).
+func c10RoundE(c *Ctx, w *World) {
+	c.Rule("C10.K10", "ALWAYS-WITH", "reopening yields the same validators: the set a reopened state lists is the stored address index, so every write of a validator record into the validator trie is on the same paths as validatorIndex.Add of that address (and every removal with Delete). GetValidators reloads the in-memory index from the trie, dropping validators created since the last flush; the Add beside the record write is what puts them back — without it the record and the statistics are committed and the index lacks the validator (shared with C08.V10)")
+	c.Min(1)
+	recordAndIndexTogether(c, w)
+
+	c.Rule("C10.K11", "OWNERSHIP", "a copy of a state is independent of the original: SecureTrie.Copy shares all nodes and relies on strict copy-on-write, so in the trie's insert and delete every store into a field of a branch or extension node (Children[i], Key, Val, flags) goes to a node this call made — the result of copy() or a new literal on every path, never the node it was handed. Skipping the copy for a node that is merely dirty (hashed by IntermediateRoot but not yet committed) edits a node shared with a copy taken in between: writes to the copy move the original's roots")
+	c.Min(6)
+	{
+		fullT, shortT := w.Named("trie", "fullNode"), w.Named("trie", "shortNode")
+		for _, name := range []string{"insert", "delete"} {
+			fn := w.Fn("trie", "Trie", name)
+			c.sawFunc(fname(fn))
+			k := 0
+			for _, fwr := range fieldWrites(fn) {
+				if fwr.Base == nil {
+					continue
+				}
+				bt := deref(fwr.Base.Type())
+				if !types.Identical(bt, fullT) && !types.Identical(bt, shortT) {
+					continue
+				}
+				c.sites++
+				bad := ""
+				seen := map[ssa.Value]bool{}
+				var fresh func(v ssa.Value) bool
+				fresh = func(v ssa.Value) bool {
+					v = stripConvNoBind(v)
+					if seen[v] {
+						return true
+					}
+					seen[v] = true
+					switch x := v.(type) {
+					case *ssa.Alloc:
+						return true
+					case *ssa.Phi:
+						for _, e := range x.Edges {
+							if !fresh(e) {
+								return false
+							}
+						}
+						return true
+					case *ssa.Call:
+						if o := calleeObj(x); o != nil && o.Name() == "copy" {
+							return true
+						}
+					case *ssa.FieldAddr:
+						return fresh(x.X)
+					case *ssa.IndexAddr:
+						return fresh(x.X)
+					}
+					bad = v.Name()
+					if v.Pos().IsValid() {
+						bad += " (" + w.Pos(v.Pos()) + ")"
+					}
+					return false
+				}
+				ok := fresh(fwr.Base)
+				c.Check(fmt.Sprintf("%s#node-write-%d-to-own-copy", fname(fn), k), fwr.Instr.Pos(), ok, ifelse(ok, "the written node is a copy() result or a new node on every path", "a field of a trie node is written although the node may be the one handed in ("+bad+"), not a copy: the node is shared with every copy of the trie taken since it was created"))
+				k++
+			}
+		}
+	}
 }
